@@ -316,12 +316,20 @@ def replay(prop, feature, h, solver, target_dir, timeout_s):
                 fo.write(m.group(1) + "\n")
     reproduced = False
     outs = []
-    for prof in ([], ["--release"]):
-        cmd = ["cargo", "kani", "playback", "-Z", "concrete-playback", "--features", feature] + prof + \
-              ["--", "kani_concrete_playback"]
-        q = subprocess.run(cmd, cwd=crate, env=kani_env(), stdout=subprocess.PIPE, stderr=subprocess.STDOUT, text=True)
-        outs.append("$ " + " ".join(cmd) + "\n" + q.stdout[-4000:])
-        if re.search(r"test result: FAILED|panicked at", q.stdout):
+    # `cargo kani playback` has no --release: the release semantics (no overflow checks, no debug
+    # assertions, optimised) are obtained by overriding the dev profile through the environment.
+    rel_env = {"CARGO_PROFILE_DEV_OPT_LEVEL": "3", "CARGO_PROFILE_DEV_OVERFLOW_CHECKS": "false",
+               "CARGO_PROFILE_DEV_DEBUG_ASSERTIONS": "false"}
+    for label, extra_env in (("dev", {}), ("release-semantics", rel_env)):
+        cmd = ["cargo", "kani", "playback", "-Z", "concrete-playback", "--features", feature,
+               "--", "kani_concrete_playback"]
+        env = kani_env()
+        env.update(extra_env)
+        q = subprocess.run(cmd, cwd=crate, env=env, stdout=subprocess.PIPE, stderr=subprocess.STDOUT, text=True)
+        failed = bool(re.search(r"test result: FAILED", q.stdout))
+        outs.append("### profile: %s -> %s\n$ %s\n%s" % (label, "REPRODUCED" if failed else "not reproduced",
+                                                        " ".join(cmd), q.stdout[-4000:]))
+        if failed:
             reproduced = True
     open(os.path.join(rdir, "replay.log"), "w").write(logtxt + "\n\n" + "\n\n".join(outs))
     with open(os.path.join(rdir, "README"), "w") as fo:
